@@ -6,6 +6,7 @@ import wgslgen as W
 import obs
 
 ID = "C03"
+ENV_RERUN = 40          # cases repeated from a cargo build-script environment (lib/runner.py with_build_env)
 TABLES = ["stages"]      # leaf tables compared exhaustively through the hooks (coq/Check/Tables.v)
 VALIDATE_MIX = True
 REQUIRES = ["Agree", "C03Spec", "Truth"]
